@@ -246,6 +246,55 @@ def make_array(seed, n, dtype):
     return g.integers(lo, hi, size=n, dtype=np_dtype(dtype), endpoint=True)
 
 
+MEMORY_LAYOUTS = ['contiguous', 'strided', 'reversed', 'column', 'read-only', 'other-dtype', 'fortran-row']
+_WIDER = {'int8': 'int16', 'int16': 'int32', 'int32': 'int64', 'uint8': 'uint16', 'uint16': 'uint32',
+          'uint32': 'uint64', 'float32': 'float64'}
+_NARROWER = {v: k for k, v in _WIDER.items()}
+
+
+def memory_layout(seed, n):
+    return MEMORY_LAYOUTS[(seed // 3 + n) % len(MEMORY_LAYOUTS)]
+
+
+def handed_array(seed, n, dtype):
+    """The array with the values of make_array(seed, n, dtype), as it is HANDED to the trajectory: in one of several
+    memory layouts (how an array lies in memory must not matter for what is stored).  The values are the same in
+    every layout; what reaches the store is whatever the Container made of the array."""
+    import numpy as np
+    kind = memory_layout(seed, n)
+    if dtype == 'str':
+        return make_array(seed, n, dtype)
+    if kind == 'other-dtype':
+        # same values in another dtype of the same kind (the field casts on assignment): generated in the narrower of
+        # the two types so that the cast is exact either way
+        if dtype in _NARROWER:
+            return make_array(seed, n, _NARROWER[dtype])                 # handed over narrower, cast up
+        return make_array(seed, n, dtype).astype(np_dtype(_WIDER[dtype]))    # handed over wider, cast down exactly
+    a = make_array(seed, n, dtype)
+    if kind == 'contiguous':
+        return a
+    if kind == 'strided':                       # every second element of a longer buffer
+        big = np.zeros(2 * n + 1, dtype=a.dtype)
+        big[:2 * n:2] = a
+        big[1::2] = a[::-1][:len(big[1::2])] if n else 0     # (neighbours that must NOT be stored)
+        return big[:2 * n:2]
+    if kind == 'reversed':                      # negative stride
+        return a[::-1].copy()[::-1]
+    if kind == 'column':                        # a column of a C-ordered 2-D table
+        table = np.zeros((n, 3), dtype=a.dtype)
+        table[:, 0] = a[::-1]
+        table[:, 1] = a
+        return table[:, 1]
+    if kind == 'fortran-row':                   # a row of a Fortran-ordered 2-D table
+        table = np.zeros((2, n), dtype=a.dtype, order='F')
+        table[1, :] = a[::-1]
+        table[0, :] = a
+        return table[0, :]
+    ro = a.copy()
+    ro.setflags(write=False)
+    return ro
+
+
 def build_value(v, fld, n):
     """JSON value -> the Python object handed to the Trajectory / returned by the mapping function."""
     import numpy as np  # noqa: F401
@@ -270,11 +319,11 @@ def build_value(v, fld, n):
     if sh == 'T':
         return sc(v)
     if sh == 'TP':
-        return make_array(v['a'], n, dt)
+        return handed_array(v['a'], n, dt)
     if sh == 'TS':
         return SpeciesValues({species[int(s)]: sc(x) for s, x in v.items()})
     if sh == 'TSP':
-        return SpeciesValues({species[int(s)]: make_array(x['a'], n, dt) for s, x in v.items()})
+        return SpeciesValues({species[int(s)]: handed_array(x['a'], n, dt) for s, x in v.items()})
     if sh == 'TM':
         return tmv(v)
     if sh == 'TSM':
@@ -442,7 +491,7 @@ def base_values(tj, bf):
     sc = 0
     for name, fld in bf:
         if fld['shape'] == 'TP':
-            vals[name] = make_array(b['seed'] + k, n, 'float64')
+            vals[name] = handed_array(b['seed'] + k, n, 'float64')
             k += 1
         elif name == 'flight_id':
             vals[name] = b['flight_id']
